@@ -245,3 +245,69 @@ func VK09dAround() {
 	}
 	vrt.Assert(hasPivot, "around window contains the pivot")
 }
+
+// K09e: the lazily sorted permanode caches behind the continuable sorts are invalidated by
+// every received blob: a file's index rows arriving after a query change the creation time
+// of the permanode whose camliContent it is, and the next query must be ordered by the new
+// times.
+func VK09eCacheInvalidation() {
+	c := index.VerifNewCorpus()
+	c.VerifSetSigner(vSigner, "KEY1")
+	pns := []blob.Ref{blob.VerifSmallRef(10), blob.VerifSmallRef(11)}
+	files := []blob.Ref{blob.VerifSmallRef(20), blob.VerifSmallRef(21)}
+	seq := byte(100)
+	for i, pn := range pns {
+		c.VerifAddBlobMeta(pn, 100, "permanode")
+		for _, av := range [][2]string{{"title", "x"}, {"camliContent", files[i].String()}} {
+			seq++
+			err := c.VerifMergeClaim(camtypes.Claim{BlobRef: blob.VerifSmallRef(seq), Signer: vSigner, Permanode: pn,
+				Date: time.Unix(1000000000+int64(vrt.Range(0, 3)), 0), Type: "set-attribute", Attr: av[0], Value: av[1]})
+			vrt.Assume(err == nil)
+		}
+	}
+	h := &Handler{index: vIndex{c: c}, corpus: c}
+	srt := vSort()
+	query := func() []blob.Ref {
+		res, err := h.Query(context.Background(), &SearchQuery{Constraint: &Constraint{Permanode: &PermanodeConstraint{}}, Limit: -1, Sort: srt})
+		vrt.Assert(err == nil, "the query succeeds")
+		var out []blob.Ref
+		if err == nil {
+			for _, b := range res.Blobs {
+				out = append(out, b.Blob)
+			}
+		}
+		return out
+	}
+	first := query()
+	vrt.Assert(len(first) == 2, "both permanodes are found")
+	// the file behind one of the permanodes is received now: its time is far before or far
+	// after every claim date
+	which := vrt.Choice(2)
+	when := []string{"1980-01-01T00%3A00%3A00Z", "2030-01-01T00%3A00%3A00Z"}[vrt.Choice(2)]
+	fr := files[which].String()
+	err := c.VerifAddBlobRows(files[which], map[string]string{
+		"meta:" + fr:      "3|application/json; camliType=file",
+		"fileinfo|" + fr:  "3|f.txt|text/plain|",
+		"filetimes|" + fr: when,
+	})
+	vrt.Assert(err == nil, "the file's rows are merged")
+	second := query()
+	vrt.Assert(len(second) == 2, "both permanodes are still found")
+	if len(second) == 2 {
+		t0, ok0 := vTimeOf(c, srt, second[0])
+		t1, ok1 := vTimeOf(c, srt, second[1])
+		vrt.Assert(ok0 && ok1, "both permanodes have a time")
+		vrt.Assert(!t0.Before(t1), "after a blob was received the results are ordered by the current times (newest first)")
+		if t0.Equal(t1) {
+			vrt.Assert(second[1].Less(second[0]), "ties are ordered by ref, descending")
+		}
+	}
+	vrt.Cover("done")
+}
+
+func vTimeOf(c *index.Corpus, srt SortType, pn blob.Ref) (time.Time, bool) {
+	if srt == LastModifiedDesc {
+		return c.PermanodeModtime(pn)
+	}
+	return c.PermanodeAnyTime(pn)
+}
